@@ -697,23 +697,26 @@ def do_mapping(molecule, mappings, to_ff, attribute_keep=(), attribute_must=(), 
 
     # The particles created by modifications belong to the residue their atoms
     # come from; failing that, to the residue of a particle they are bonded to.
+    # As for the stashed attributes above, the first atom of a particle says
+    # which input residue the particle belongs to.
     if created_by_mod:
-        def residue_of(mol_idx):
-            node = molecule.nodes[mol_idx]
-            return node.get('chain'), node.get('resid'), node.get('insertion_code')
+        def residue_of(out_idx):
+            for mol_idx in out_to_mol.get(out_idx, ()):
+                node = molecule.nodes[mol_idx]
+                return node.get('chain'), node.get('resid'), node.get('insertion_code')
+            return None
         resid_out = {}
-        for out_idx, mol_idxs in out_to_mol.items():
-            if out_idx not in created_by_mod:
-                for mol_idx in mol_idxs:
-                    resid_out.setdefault(residue_of(mol_idx), graph_out.nodes[out_idx].get('resid'))
+        for out_idx in out_to_mol:
+            if out_idx not in created_by_mod and residue_of(out_idx) is not None:
+                resid_out.setdefault(residue_of(out_idx), graph_out.nodes[out_idx].get('resid'))
         for out_idx in sorted(created_by_mod):
-            resids = [resid_out[residue_of(mol_idx)] for mol_idx in out_to_mol.get(out_idx, ())
-                      if resid_out.get(residue_of(mol_idx)) is not None]
-            if not resids:
+            resid = resid_out.get(residue_of(out_idx))
+            if resid is None:
                 resids = [graph_out.nodes[neighbor].get('resid') for neighbor in graph_out[out_idx]
                           if neighbor not in created_by_mod and graph_out.nodes[neighbor].get('resid') is not None]
-            if resids:
-                graph_out.nodes[out_idx]['resid'] = min(resids)
+                resid = min(resids) if resids else None
+            if resid is not None:
+                graph_out.nodes[out_idx]['resid'] = resid
 
     # We need to add edges between residues. Within residues comes from the
     # blocks.
